@@ -81,3 +81,10 @@ for w, nm, fn in ((1, "feed", "tinyjambu_prng_feed"), (2, "reseed", "tinyjambu_p
         "unbounded": "every length of the caller data (feed size / personalisation length <= 2^40), every delivery count of the entropy source (all of size_t), arbitrary prior state",
         "assumes": ["hash API replaced by a protocol-recording contract stub (arbitrary digests); its functional contract: C10/C11"],
     })
+
+_gf = [j for j in JOBS if j["name"] == "prng.generate.fn.0"][0]
+JOBS += split_grid(dict(_gf, name="prng.generate.fnt",
+    grid=[{"label": "sz%d_c%d_l%d_d%d" % (sz, c, l, d), "defs": ["SZ=%d" % sz, "CNT=%d" % c, "LIM=%d" % l, "DEL=%d" % d]}
+          for (sz, c, l, d) in [(31, 1, 32, 32), (96, 1, 32, 32), (65, 31, 32, 13), (33, 1000, 32768, 32), (64, 32768, 32768, 32), (2, 4, 3, 31), (48, 2, 1, 33)]],
+    cost=160,
+    bounded="7 more (size, counter, limit, delivery) shapes incl. three blocks, the maximum limit and deliveries of 13, 31 and 33 bytes"), 7)
